@@ -41,7 +41,9 @@ FailC15(c) ==
   \* a spelling of the language - derivable, and grouped unambiguously by the precedence order - must be accepted
   ELSE IF c.outcome = "RTAMT" THEN <<"spelling.rejected", "ok", c.outcome>>
   ELSE IF c.outcome # "ok" THEN <<"parse.outcome", "ok", c.outcome>>
-  ELSE IF c.implKnown /\ c.implAst # want THEN <<"spelling.ast", want, c.implAst>>
+  \* (a tree that differs from the expected one but denotes the same signal transformer on all short traces is no defect)
+  ELSE IF c.implKnown /\ c.implAst # want /\ ~SemEq(Desugar(c.implAst), want, 1, [sem |-> "standard", io |-> [v \in VarsOf(want) \cup VarsOf(c.implAst) |-> "output"]])
+       THEN <<"spelling.ast", want, c.implAst>>
   ELSE IF c.evalOut \notin ({"ok"} \cup ArithExc) THEN <<"spelling.eval", "ok", c.evalOut>>
   ELSE IF c.evalOut = "ok" /\ c.ret # c.refRet THEN <<"spelling.result", c.refRet, c.ret>>
   ELSE <<>>
